@@ -204,6 +204,23 @@ def oracle(reset, evs):
 
 # ---------------------------------------------------------------------------------------------
 
+def _transient(r):
+    """TLC unpacks its standard / community modules into /tmp/tlc-*; when another job cleans /tmp meanwhile the
+    parse fails ("Cannot find source file for module ..."). That says nothing about the spec: retry."""
+    return bool(r.error) and ("Cannot find source file for module" in r.out or
+                              "Parsing or semantic analysis failed" in r.out and "***Parse Error***" not in r.out
+                              and "Semantic errors" not in r.out)
+
+
+def tlc_retry(*a, **kw):
+    for _ in range(3):
+        r = vlib.tlc(*a, **kw)
+        if not _transient(r):
+            return r
+        time.sleep(3)
+    return r
+
+
 def read_trace(path):
     with open(path) as f:
         return [json.loads(l) for l in f if l.strip()]
@@ -218,14 +235,14 @@ def write_trace(path, lines):
 MAX_HANGS = 3
 
 
-def record(run, tmp, args, tag, programs, binpath=None):
+def record(run, tmp, args, tag, programs, binpath=None, first=0):
     """Run the recorder. A hung run ends the recorder process (its threads cannot be removed); it is
     restarted behind that run. After MAX_HANGS hangs recording stops: the hangs are the result.
     Returns (trace path, problem lines, runs completed, events)."""
     trace = os.path.join(tmp, tag + ".ndjson")
     progs = os.path.join(tmp, tag + ".progs.jsonl")
     problems = []
-    start = 0
+    start = first
     cases = steps = hangs = 0
     while True:
         a = list(args) + ["--from", str(start), "--out", trace, "--programs", progs]
@@ -260,7 +277,11 @@ def record(run, tmp, args, tag, programs, binpath=None):
 def validate(trace_lines, tmp, name):
     p = os.path.join(tmp, name + ".ndjson")
     write_trace(p, trace_lines)
-    ok, r = vlib.validate_trace("Trace_Dispatcher", "Trace_Dispatcher.cfg", p, timeout=2400)
+    for _ in range(3):
+        ok, r = vlib.validate_trace("Trace_Dispatcher", "Trace_Dispatcher.cfg", p, timeout=2400)
+        if not _transient(r):
+            break
+        time.sleep(3)
     if r.error:
         raise vlib.ToolError("Trace_Dispatcher: TLC error: %s\n%s" % (r.error, r.out[-3000:]))
     first = None
@@ -423,13 +444,13 @@ def model_checking(tier, box):
             for cfg in cfgs:
                 if cfg == "POOL1":
                     # the named deviation must be what the model predicts: with a one-slot pool join never returns
-                    r = vlib.tlc("Dispatcher", "MC_Dispatcher_pool1.cfg", timeout=600, workers=2, coverage=False)
+                    r = tlc_retry("Dispatcher", "MC_Dispatcher_pool1.cfg", timeout=600, workers=2, coverage=False)
                     if "Temporal property JoinReturns was violated" not in r.out:
                         raise vlib.ToolError("Dispatcher pool1 control: expected a JoinReturns counterexample, "
                                              "got %s %s" % (r.violated, r.error))
                     results[cfg] = "JoinReturns violated as predicted (%d states)" % r.distinct
                 else:
-                    r = vlib.tlc("Dispatcher", cfg, timeout=1700, workers=2)
+                    r = tlc_retry("Dispatcher", cfg, timeout=1700, workers=2)
                     vlib.require_model_ok(r, "Dispatcher/" + cfg)
                     results[cfg] = r
         except BaseException as e:      # noqa: B902
@@ -486,7 +507,14 @@ def report_history_problems(run, lines, programs, flagged):
 
 def run(run, tier, replay):
     for m in ("Dispatcher", "Trace_Dispatcher"):
-        vlib.sany(m)
+        for attempt in range(3):
+            try:
+                vlib.sany(m)
+                break
+            except vlib.ToolError as e:
+                if "Cannot find source file" not in str(e) or attempt == 2:
+                    raise
+                time.sleep(3)
     tmp = vlib.scratch()
     try:
         box = {}
@@ -512,28 +540,59 @@ def run(run, tier, replay):
                 prog = os.path.join(tmp, "replay.json")
                 with open(prog, "w") as f:
                     json.dump(obj["replay"], f)
-                trace, problems, cases, steps = record(run, tmp, ["--replay", prog, "--repeat", "40"], "replay",
+                trace, problems, cases, steps = record(run, tmp, ["--replay", prog, "--repeat", "400"], "replay",
                                                        programs, prebuilt)
             else:
                 nruns = 200 if tier == "quick" else 5000
-                # the deterministic scenario of the known finding, in its own process, meanwhile
+                # the two scenarios of the known finding, in their own processes, meanwhile:
+                # pool1 (deterministic, one-slot pool) and poolrace (default limit, a race, repeated)
                 sc = {}
 
                 def scenario():
                     try:
-                        sc["r"] = record(run, tmp, ["--scenario", "pool1"], "pool1", {}, prebuilt)
+                        a = record(run, tmp, ["--scenario", "pool1"], "pool1", {}, prebuilt)
+                        b = record(run, tmp, ["--scenario", "poolrace", "--repeat",
+                                              "150" if tier == "quick" else "1500"], "poolrace", {}, prebuilt)
+                        sc["r"] = (a, b)
                     except BaseException as e:      # noqa: B902
                         sc["r"] = e
                 st = threading.Thread(target=scenario)
                 st.start()
-                trace, problems, cases, steps = record(
-                    run, tmp, ["--seed", str(vlib.seed()), "--runs", str(nruns)], "main", programs, prebuilt)
+                # thorough: three recorder processes side by side (most of a run is sleeping)
+                parts = 1 if tier == "quick" else 3
+                bounds = [nruns * k // parts for k in range(parts + 1)]
+                recs = [None] * parts
+
+                def rec_part(k):
+                    try:
+                        recs[k] = record(run, tmp, ["--seed", str(vlib.seed()), "--runs", str(bounds[k + 1])],
+                                         "main%d" % k, programs, prebuilt, first=bounds[k])
+                    except BaseException as e:      # noqa: B902
+                        recs[k] = e
+                rts = [threading.Thread(target=rec_part, args=(k,)) for k in range(parts)]
+                for t in rts:
+                    t.start()
+                for t in rts:
+                    t.join()
                 st.join()
+                trace = os.path.join(tmp, "main.ndjson")
+                problems, cases, steps = [], 0, 0
+                with open(trace, "w") as out:
+                    for x in recs:
+                        if isinstance(x, BaseException):
+                            raise x
+                        if os.path.exists(x[0]):
+                            with open(x[0]) as f:
+                                shutil.copyfileobj(f, out)
+                        problems += x[1]
+                        cases += x[2]
+                        steps += x[3]
                 if isinstance(sc["r"], BaseException):
                     raise sc["r"]
-                _t, p2, _c, _s = sc["r"]
-                problems += p2
-                run.note("scenario_pool1", "hang" if any(p["type"] == "hang" for p in p2) else "completed")
+                for name, (_t, p2, c2, _s) in zip(("pool1", "poolrace"), sc["r"]):
+                    problems += p2
+                    run.note("scenario_" + name, ("hang after %d runs" % c2) if any(p["type"] == "hang" for p in p2)
+                             else "completed (%d runs)" % c2)
             vlib.log("C18: recorded in %.0fs" % (time.time() - t0))
             t0 = time.time()
             lines = read_trace(trace) if os.path.exists(trace) else []
